@@ -16,6 +16,7 @@ import (
 	sdktx "github.com/cosmos/cosmos-sdk/types/tx"
 	"github.com/cosmos/cosmos-sdk/types/tx/signing"
 	"github.com/cosmos/gogoproto/proto"
+	"google.golang.org/protobuf/encoding/protowire"
 
 	ethcrypto "github.com/ethereum/go-ethereum/crypto"
 
@@ -36,6 +37,12 @@ type RawTx struct {
 	Granter     string
 	SignerInfos []*sdktx.SignerInfo
 	Signatures  [][]byte
+	// further envelope values (C07 value round): a tip, and payer / granter fields that are PRESENT on the wire with
+	// the empty string as value (proto3 cannot tell them from absent ones after decoding; gogoproto never emits them,
+	// so the auth info is then assembled by hand)
+	Tip                  *sdktx.Tip
+	ExplicitEmptyPayer   bool
+	ExplicitEmptyGranter bool
 }
 
 func (r *RawTx) parts() (body, auth []byte, err error) {
@@ -53,10 +60,60 @@ func (r *RawTx) parts() (body, auth []byte, err error) {
 	if err != nil {
 		return nil, nil, err
 	}
+	if (r.ExplicitEmptyPayer && r.Payer == "") || (r.ExplicitEmptyGranter && r.Granter == "") {
+		auth, err = r.authInfoByHand()
+		return body, auth, err
+	}
 	ai := &sdktx.AuthInfo{SignerInfos: r.SignerInfos,
-		Fee: &sdktx.Fee{Amount: r.Fee, GasLimit: r.Gas, Payer: r.Payer, Granter: r.Granter}}
+		Fee: &sdktx.Fee{Amount: r.Fee, GasLimit: r.Gas, Payer: r.Payer, Granter: r.Granter}, Tip: r.Tip}
 	auth, err = proto.Marshal(ai)
 	return body, auth, err
+}
+
+// authInfoByHand writes AuthInfo{signer_infos=1, fee=2{amount=1, gas_limit=2, payer=3, granter=4}, tip=3} field by field,
+// in field order, with payer / granter emitted as zero-length strings where asked.
+func (r *RawTx) authInfoByHand() ([]byte, error) {
+	var fee []byte
+	for i := range r.Fee {
+		bz, err := proto.Marshal(&r.Fee[i])
+		if err != nil {
+			return nil, err
+		}
+		fee = protowire.AppendTag(fee, 1, protowire.BytesType)
+		fee = protowire.AppendBytes(fee, bz)
+	}
+	if r.Gas != 0 {
+		fee = protowire.AppendTag(fee, 2, protowire.VarintType)
+		fee = protowire.AppendVarint(fee, r.Gas)
+	}
+	if r.Payer != "" || r.ExplicitEmptyPayer {
+		fee = protowire.AppendTag(fee, 3, protowire.BytesType)
+		fee = protowire.AppendString(fee, r.Payer)
+	}
+	if r.Granter != "" || r.ExplicitEmptyGranter {
+		fee = protowire.AppendTag(fee, 4, protowire.BytesType)
+		fee = protowire.AppendString(fee, r.Granter)
+	}
+	var out []byte
+	for _, si := range r.SignerInfos {
+		bz, err := proto.Marshal(si)
+		if err != nil {
+			return nil, err
+		}
+		out = protowire.AppendTag(out, 1, protowire.BytesType)
+		out = protowire.AppendBytes(out, bz)
+	}
+	out = protowire.AppendTag(out, 2, protowire.BytesType)
+	out = protowire.AppendBytes(out, fee)
+	if r.Tip != nil {
+		bz, err := proto.Marshal(r.Tip)
+		if err != nil {
+			return nil, err
+		}
+		out = protowire.AppendTag(out, 3, protowire.BytesType)
+		out = protowire.AppendBytes(out, bz)
+	}
+	return out, nil
 }
 
 // Encode returns the TxRaw bytes of the envelope as it stands.
